@@ -39,7 +39,7 @@ K_SET = [1, 2, 3, 17, 256, 5000]
 def shards(tier, seed):
     out = []
     if tier == "quick":
-        n_main, n_per, n_cuda, budget = 8, 260, 130, 70
+        n_main, n_per, n_cuda, budget = 8, 260, 100, 70
     else:
         n_main, n_per, n_cuda, budget = 14, 4000, 1200, 540
     for i in range(n_main):
@@ -61,6 +61,9 @@ def make_case(seedt, tier, cuda):
     if cuda:
         L = int(rng.choice([1, 2, 3, 4, 5, 8, 16, 31, 64, 100, 256]))
         K = int(rng.choice([1, 2, 3, 17, 64]))
+        if rng.random() < 0.05:
+            # more segments than one CUDA block holds (launch geometry: 2 blocks, tail partly idle)
+            K, L = int(rng.choice([257, 300])), int(rng.choice([2, 4]))
     else:
         Ls = L_QUICK if tier == "quick" else L_THOROUGH
         L = int(rng.choice(Ls))
